@@ -22,7 +22,7 @@ from . import observe as ob
 
 IDS = ["M", "K", "N", "J"]
 
-MUTATORS = ("ref", "hw", "posref", "append", "extend", "setitem", "iol", "fiadd", "fimul", "filshift",
+MUTATORS = ("ref", "hw", "posref", "append", "extend", "setitem", "iol", "setdef", "fiadd", "fimul", "filshift",
             "updc", "updp", "updbelow", "clear", "setroot", "reroot")
 C03_FAMILY = ("ref", "hw", "posref", "get", "getpos")
 
@@ -838,6 +838,31 @@ class TreeSim(WorldBase):
         except Exception as e:
             return {"status": f"exc:{type(e).__name__}"}
         return {}
+
+    def op_setdef(self, a, targets):
+        """the empty value of the tensor's leaf rank is changed (Tensor.setDefault): from now on absent points read as it"""
+        s = a["slot"]
+        sl = self.slot(s)
+        self.need_unfrozen(s)
+        if sl.free or sl.depth < 1:
+            raise Skip("tensor with ranks")
+        try:
+            sl.t.setDefault(a["v"])
+        except Exception as e:
+            return {"status": f"exc:{type(e).__name__}"}
+        sl.default = a["v"]
+        targets.add(s)
+        for h in self.handles:
+            if h["slot"] == s:
+                h["alive"] = h["alive"] and True
+        self.probe("leaf_default_changed")
+        return {}
+
+    def gen_setdef(self, g):
+        s = self.pick_slot(g)
+        if s is None or self.slots[s].free or self.slots[s].depth < 1:
+            return None
+        return ["op", "setdef", {"slot": s, "v": g.choice([5, -1, 2.5, 0, 0])}]
 
     def op_iol(self, a, targets):
         """the deprecated (but public) insert-or-look-up: with a value at a leaf fiber, without one anywhere"""
@@ -2416,7 +2441,7 @@ BASE_WEIGHTS = {
     "C03": {"r0": 2, "ref": 8, "hw": 5, "posref": 3, "get": 8, "getpos": 3, "append": 0.5, "setitem": 0.7, "clear": 0.3,
             "populate": 0.7, "descend": 2, "updp": 0.3, "fimul": 0.3, "filshift": 0.3, "new_op": 0.3},
     "C05": {"vr": 1.0, "populate": 8, "descend": 10, "ref": 3, "hw": 1, "get": 3, "setitem": 1, "clear": 0.3, "filshift": 0.5,
-            "fimul": 0.5, "fiadd": 0.7, "rotrav": 0.5, "new_op": 0.7, "regrow": 0.6},
+            "fimul": 0.5, "fiadd": 0.7, "rotrav": 0.5, "new_op": 0.7, "regrow": 0.6, "setdef": 0.5},
     "C10": dict(ALLMUT, get=2, getpos=1, rotrav=2, vr=10, ro=10, render=0.35, r0=0.5),
 }
 FOCUS = {
